@@ -31,6 +31,9 @@ def generate(rng, tier):
         parallel = i % 4 != 3
         files, rules, truth, info = clifam.make_set(rng, rng.randint(2, 6), kinds=["pass"] if i % 2 == 0 else ["pass", "pass", "pass", "fail"], parallel=parallel)
         rules = [r for r in rules if "delay_ms" not in r] + [{"match": "F0", "delay_ms": 10}]
+        if parallel:
+            # sessions of one file whose ends depend on each other (either way round): releasing everything must not hinge on an order
+            rules += [{"start_db_prefix": clifam.case_name(p) + "_", "eof_wait_peer": ["first", "later"][(i + k) % 2]} for k, p in enumerate(sorted(truth))]
         sets.append({"files": files, "rules": rules, "truth": truth, "info": info, "jobs": rng.randint(2, 4) if parallel else None, "meta": {"kind": "sigint"}})
     # Ctrl-C while a file is inside a pause that is not a database request: a `sleep` record or a system command
     for i in range(4 if tier == "quick" else 40):
